@@ -88,7 +88,8 @@ META = {
             "to generate the centred lattice with the right covolume (so the primitive cell has volume and atom count divided by "
             "1, 2, 3 or 4); the coordinate conversion is checked by convention normal forms; the getters are typed in a "
             "three-space index discipline so a swapped spglib mapping is a type error. Per-atom consistency for a concrete "
-            "crystal depends on spglib at run time and is not decided.",
+            "crystal depends on spglib at run time and is not decided."
+            " Also: the code path from centring letter to matrix is constant-folded (a remapping such as A->C is evaluated), the original letters are typed in a letter-space discipline (OLD/NEW) so an inverted permutation is a type error, orbits come from crystallographic_orbits, memo coherence with reset().",
     "note": "trusted: spglib's documented field semantics and Hall database; centring vectors as tabulated in WYCKOFF_SETS "
             "(themselves checked against the reference orbits under C14); CPython ast.",
     "technique": "exact evaluation of literal matrices + matrix-convention normal forms + index-space type discipline",
